@@ -263,4 +263,13 @@ def run(rep, facts, tier):
     if "R" in cfgs:
         # ToConstraintField lives behind the r1cs feature
         n += len(funnel(rep, cfgs["R"]))
+    # "affine or projective form ... affine round trips": every conversion between the two forms (From impls, into_affine, batch
+    # normalisation) must hand the encoder a representation of the SAME element - C06's provenance instances on those sites
+    # (a raw (X, Y) copied out of a Z != 1 point is not a point at all, yet compares equal to the original).
+    from . import c06
+    from .common import import_rules
+    conv = re.compile(r"normalize_batch|batch_convert_to_mul_base|into_affine|convert::From<&?ark_curve::element::(affine::AffinePoint|projective::Element)>|from_affine|min_curve::element::Element::new")
+    nconv = import_rules(rep, c06, {k: v for k, v in facts.items() if k != "R"}, tier, "CONV", pred=lambda k: k.startswith("PROV/") and bool(conv.search(k)))
+    rep.rules += ["CONV (C06's PROV instances on the affine <-> projective conversion sites)"]
+    rep.floor("conversion_sites", nconv, 6)
     rep.floor("encode_entry_points_total", n, 9)
